@@ -1101,8 +1101,14 @@ func icContextWithValue(e *Engine, fr *frame, fn *ssa.Function, args []Value, c 
 }
 
 func icRandRead(e *Engine, fr *frame, fn *ssa.Function, args []Value, c *ssa.CallCommon) (Value, bool) {
-	// arbitrary bytes; content is never inspected by the code under analysis
+	// arbitrary bytes: a fresh symbolic array (solver mode); zeros in concrete replay
 	s := args[0].(*Slice)
+	if e.cfg.Replay == nil && s.bobj != nil && s.len.op == OpConst {
+		arr := e.tt.Fresh("rand", SArr, 0)
+		for i := uint64(0); i < s.len.lo; i++ {
+			e.sliceStore(s, e.c64(i), e.tt.Select(arr, e.c64(i)))
+		}
+	}
 	return &Tuple{vals: []Value{s.len, &Iface{}}}, true
 }
 
